@@ -144,6 +144,13 @@ type ewiFlat struct {
 	S3   string `class:"secret"`
 	S4   string `class:"public"`
 	B5   []byte `class:"sensitive"`
+	// values below maps of maps: the event's key material has to reach them too
+	Details map[string]interface{}
+}
+
+type ewiInner struct {
+	V string `class:"sensitive"`
+	H string `class:"sensitive,hmac-sha256"`
 }
 
 func (e *ewiFlat) EventId() string  { return e.Info.id }
@@ -276,6 +283,7 @@ func encryptMain(args []string) {
 					m     int
 				}
 				var leaves []leafRef
+				var extraLeaves []leafRef // checked by the C16 oracle only
 				ewiTok := "N"
 				var ewi *ewiPayload
 				if p.chance(1, 4) {
@@ -318,6 +326,53 @@ func encryptMain(args []string) {
 					}
 					// the Info field sits first; the model gets it as an `other` leaf
 					leaves = append([]leafRef{{get: nil}}, leaves...)
+					// Details: structs below a map, a map of maps, a map of maps of maps (oracle only: the model
+					// sees an `other` leaf)
+					if p.chance(1, 2) {
+						mk := func() (*ewiInner, []leafRef) { return nil, nil }
+						_ = mk
+						var paths [][]string
+						inner := func(path ...string) *ewiInner {
+							mCounter += 2
+							paths = append(paths, path)
+							in := &ewiInner{V: fmt.Sprintf("m%d", mCounter-1), H: fmt.Sprintf("m%d", mCounter)}
+							for fi, pl := range []struct {
+								plain string
+								m     int
+							}{{in.V, mCounter - 1}, {in.H, mCounter}} {
+								fi, path := fi, path
+								extraLeaves = append(extraLeaves, leafRef{plain: pl.plain, m: pl.m, get: func(out reflect.Value) (string, bool) {
+									var cur interface{} = out.Elem().FieldByName("Details").Interface()
+									for _, seg := range path {
+										mm, ok := cur.(map[string]interface{})
+										if !ok {
+											return "", false
+										}
+										cur = mm[seg]
+									}
+									in, ok := cur.(*ewiInner)
+									if !ok || in == nil {
+										return "", false
+									}
+									if fi == 0 {
+										return in.V, true
+									}
+									return in.H, true
+								}})
+							}
+							return in
+						}
+						pl.Details = map[string]interface{}{
+							"owner": inner("owner"),
+							"inner": map[string]interface{}{
+								"approver": inner("inner", "approver"),
+								"deeper":   map[string]interface{}{"auditor": inner("inner", "deeper", "auditor")},
+							},
+						}
+						st.hit("flat:ewi-with-nested-maps")
+					}
+					fieldToks = append(fieldToks, "E:o:0:N")
+					leaves = append(leaves, leafRef{get: nil})
 					payload = pl
 				} else {
 					nf := 1 + p.intn(6)
@@ -497,6 +552,38 @@ func encryptMain(args []string) {
 				default:
 					ov := reflect.ValueOf(got.Payload)
 					var ls []string
+					// C16: every protected value is under the key, salt and info in force for this event
+					checkKey := func(cl string, m int) {
+						if !(strings.HasPrefix(cl, "E") || strings.HasPrefix(cl, "M")) {
+							return
+						}
+						wantID := "-"
+						wantS, wantI := curS, curI
+						if ewi != nil {
+							wantID = strings.TrimPrefix(ewi.id, "ev")
+							if ewi.salt != nil {
+								wantS = strings.TrimPrefix(string(ewi.salt), "salt")
+							}
+							if ewi.info != nil {
+								wantI = strings.TrimPrefix(string(ewi.info), "info")
+							}
+						}
+						dash := func(x string) string {
+							if x == "N" {
+								return "-"
+							}
+							return x
+						}
+						want := ""
+						if strings.HasPrefix(cl, "E") {
+							want = fmt.Sprintf("E%s/%s:%d", curW, wantID, m)
+						} else {
+							want = fmt.Sprintf("M%s/%s:%s:%s:%d", curW, wantID, dash(wantS), dash(wantI), m)
+						}
+						if cl != want {
+							oracle("C16 a value was protected as %s but the key material in force is %s (wrapper %s, salt %s, info %s after the rotations so far)", cl, want, curW, curS, curI)
+						}
+					}
 					for _, l := range leaves {
 						if l.get == nil {
 							ls = append(ls, "o")
@@ -517,34 +604,17 @@ func encryptMain(args []string) {
 						}
 						cl := h.canonLeaf(v, l.plain, l.m, ewi, salts, infos)
 						ls = append(ls, cl)
-						// C16: the key, salt and info in force
-						if strings.HasPrefix(cl, "E") || strings.HasPrefix(cl, "M") {
-							wantID := "-"
-							wantS, wantI := curS, curI
-							if ewi != nil {
-								wantID = strings.TrimPrefix(ewi.id, "ev")
-								if ewi.salt != nil {
-									wantS = strings.TrimPrefix(string(ewi.salt), "salt")
-								}
-								if ewi.info != nil {
-									wantI = strings.TrimPrefix(string(ewi.info), "info")
-								}
+						checkKey(cl, l.m)
+					}
+					for _, l := range extraLeaves {
+						if v, ok := l.get(ov); ok {
+							cl := h.canonLeaf(v, l.plain, l.m, ewi, salts, infos)
+							if strings.HasPrefix(cl, "p") && ovTok == "-" {
+								oracle("C09 a sensitive value below nested maps came out in plaintext")
 							}
-							dash := func(x string) string {
-								if x == "N" {
-									return "-"
-								}
-								return x
-							}
-							want := ""
-							if strings.HasPrefix(cl, "E") {
-								want = fmt.Sprintf("E%s/%s:%d", curW, wantID, l.m)
-							} else {
-								want = fmt.Sprintf("M%s/%s:%s:%s:%d", curW, wantID, dash(wantS), dash(wantI), l.m)
-							}
-							if cl != want {
-								oracle("C16 a value was protected as %s but the key material in force is %s (wrapper %s, salt %s, info %s after the rotations so far)", cl, want, curW, curS, curI)
-							}
+							checkKey(cl, l.m)
+						} else {
+							oracle("C10 a value below nested maps is gone from the forwarded payload")
 						}
 					}
 					res = "filtered " + strings.Join(ls, ",")
